@@ -87,19 +87,22 @@ def Abs (dflt : ν) (d : Nat) (t : Tree κ ν d) (m : List κ → ν) : Prop :=
   ∀ q, q.length = d → val dflt d t q = m q
 
 theorem step_refines [Add ν] (dflt : ν) (d : Nat) (t : Tree κ ν d) (m : List κ → ν)
-    (op : PointOp κ ν) (h : WF d t) (ha : Abs dflt d t m) (hp : op.point.length = d) :
+    (op : PointOp κ ν) (h : WF d t) (ha : Abs dflt d t m) (hp : op.ok dflt d) :
     WF d (pointStep dflt d t op).1 ∧ Abs dflt d (pointStep dflt d t op).1 (specStep m op).1 ∧
     (pointStep dflt d t op).2 = (specStep m op).2 := by
   cases op with
   | get p =>
-    exact ⟨h, ha, by show getLeaf dflt d t p = m p; rw [getLeaf_eq_val _ _ _ h]; exact ha p hp⟩
+    have hp : p.length = d := hp
+    exact ⟨h, ha, by show some (getLeaf dflt d t p) = some (m p); rw [getLeaf_eq_val _ _ _ h]; exact congrArg some (ha p hp)⟩
   | ref p =>
+    have hp : p.length = d := hp
     refine ⟨refAt_wf dflt d t h p, fun q hq => ?_, ?_⟩
     · show val dflt d (refAt dflt d t p) q = m q
       rw [refAt_val dflt d t h p]; exact ha q hq
-    · show getLeaf dflt d (refAt dflt d t p) p = m p
-      rw [getLeaf_eq_val _ _ _ (refAt_wf dflt d t h p), refAt_val dflt d t h p]; exact ha p hp
+    · show some (getLeaf dflt d (refAt dflt d t p) p) = some (m p)
+      rw [getLeaf_eq_val _ _ _ (refAt_wf dflt d t h p), refAt_val dflt d t h p]; exact congrArg some (ha p hp)
   | assign p v =>
+    have hp : p.length = d := hp
     have hw := updateAt_wf (fun _ => v) d _ (refAt_wf dflt d t h p) p
     have hv : ∀ q, q.length = d → val dflt d (updateAt (fun _ => v) d (refAt dflt d t p) p) q =
         if q = p then v else m q := by
@@ -107,9 +110,10 @@ theorem step_refines [Add ν] (dflt : ν) (d : Nat) (t : Tree κ ν d) (m : List
       rw [updateAt_val dflt _ d _ p q (refAt_path dflt d t h p hp) hp hq, refAt_val dflt d t h p]
       by_cases hqp : q = p <;> simp [hqp, ha q hq]
     refine ⟨hw, hv, ?_⟩
-    show getLeaf dflt d _ p = v
+    show some (getLeaf dflt d _ p) = some v
     rw [getLeaf_eq_val _ _ _ hw, hv p hp]; simp
   | iadd p v =>
+    have hp : p.length = d := hp
     have hw := updateAt_wf (fun x => x + v) d _ (refAt_wf dflt d t h p) p
     have hv : ∀ q, q.length = d → val dflt d (updateAt (fun x => x + v) d (refAt dflt d t p) p) q =
         if q = p then m p + v else m q := by
@@ -118,12 +122,19 @@ theorem step_refines [Add ν] (dflt : ν) (d : Nat) (t : Tree κ ν d) (m : List
         refAt_val dflt d t h p, ha p hp]
       by_cases hqp : q = p <;> simp [hqp, ha q hq]
     refine ⟨hw, hv, ?_⟩
-    show getLeaf dflt d _ p = m p + v
+    show some (getLeaf dflt d _ p) = some (m p + v)
     rw [getLeaf_eq_val _ _ _ hw, hv p hp]; simp
+  | scale p g =>
+    obtain ⟨hp, hg⟩ : p.length ≤ d ∧ g dflt = dflt := hp
+    refine ⟨updateUnder_wf g d _ (refAt_wf dflt d t h p) p, fun q hq => ?_, rfl⟩
+    show val dflt d (updateUnder g d (refAt dflt d t p) p) q = if p <+: q then g (m q) else m q
+    rw [updateUnder_val dflt g hg d _ p q hp, refAt_val dflt d t h p, ha q hq]
 
-/-- **C03, histories.** -/
+/-- **C03, histories.**  Any interleaving of reads, references, assignments and in-place additions at full points and
+    of in-place scalings through the handle of any partial point refines the abstract map machine: the outputs are
+    those of the map, and the tree stays well-formed. -/
 theorem run_refines_map [Add ν] (dflt : ν) (d : Nat) : ∀ (ops : List (PointOp κ ν)) (t : Tree κ ν d)
-    (m : List κ → ν), WF d t → Abs dflt d t m → (∀ op ∈ ops, op.point.length = d) →
+    (m : List κ → ν), WF d t → Abs dflt d t m → (∀ op ∈ ops, op.ok dflt d) →
     (pointRun dflt d t ops).2 = specRun m ops ∧ WF d (pointRun dflt d t ops).1
   | [], _, _, h, _, _ => ⟨rfl, h⟩
   | op :: ops, t, m, h, ha, hp => by
@@ -201,7 +212,10 @@ private def exT : Tree Int Int 2 := [(0, [(1, (5 : Int)), (2, (0 : Int))]), (3, 
 example : WF 2 exT := (wfB_iff 2 exT).1 (by decide)
 example : Abs 0 2 exT (val 0 2 exT) := fun _ _ => rfl
 #guard getLeaf 0 2 exT [0, 1] == 5 && getLeaf 0 2 exT [0, 2] == 0 && getLeaf 0 2 exT [3, 1] == 0 && getLeaf 0 2 exT [9, 9] == 0
-#guard (pointRun 0 2 exT [.get [3, 1], .assign [3, 1] 4, .iadd [9, 0] 2, .get [3, 1], .get [9, 0], .ref [1, 1], .get [0, 1]]).2 == [0, 4, 2, 4, 2, 0, 5]
+#guard (pointRun 0 2 exT [.get [3, 1], .assign [3, 1] 4, .iadd [9, 0] 2, .get [3, 1], .get [9, 0], .ref [1, 1], .get [0, 1]]).2 == [some 0, some 4, some 2, some 4, some 2, some 0, some 5]
+-- a history with a scaling of row 0 through its handle between reads: (0,1) reads 5, then 15; row 4 keeps 7
+#guard (pointRun 0 2 exT [.get [0, 1], .scale [0] (fun x => if x = 0 then x else x * 3), .get [0, 1], .get [0, 2], .get [4, 0]]).2
+         == [some 5, none, some 15, some 0, some 7]
 -- partial assignment: row 3 := a copy of [(1, 9), (2, 0)]; (3,1) reads 9, (3,2) the default, row 0 is untouched
 private def exG : TreeArg Int := ⟨fun k => match k with | 1 => some ([(1, (9 : Int)), (2, (0 : Int))] : Tree Int Int 1) | _ => none⟩
 #guard (locate 1 exT [3]).isSome
